@@ -66,6 +66,9 @@ def _proc_yaml(p, lim_quota):
         s += "    processor: Filter\n    parameters:\n" + COND_IMPL[p["impl"]]
     elif kind == "Cond":
         s += "    processor: Filter\n    parameters:\n      - key: header\n        value: \"x-%s=1\"\n" % k.lower()
+    elif kind == "Plain" and p.get("impl") == "sanitize":
+        # rewrites the request body (and its content-length header); request side only
+        s += "    processor: DataSanitation\n"
     elif kind == "Plain" and p.get("impl") == "transform":
         # an unconditional processor that reports the *current* stream type (like HARCollector, WriteCache, traces ...)
         s += ("    processor: TransformAPICall\n    parameters:\n      - key: set\n        value:\n"
@@ -209,6 +212,23 @@ def limit_of(cfg):
     return 2 ** (n + 1) + 2 * len(cfg.get("quotas", [])) + 64
 
 
+def url_for(fl):
+    """a concrete URL that reaches the flow (a host wildcard flow h.test/* is reached through h.test/w)"""
+    return fl["url"][:-1] + "w" if fl["url"].endswith("/*") else fl["url"]
+
+
+def selected_flows(cfg, url, first):
+    """bookkeeping for the trace: the user flows whose filter URL covers the transaction's URL (the one aimed at first).
+    Only URLs of the shapes host/path and host/* occur in the generated configurations."""
+    url = url.split("?", 1)[0]
+    out = [first]
+    for fl in cfg["flows"]:
+        u = fl.get("url", "")
+        if fl["name"] != first and (u == url or (u.endswith("/*") and url.startswith(u[:-1]))):
+            out.append(fl["name"])
+    return out
+
+
 def standard_txs(cfg, max_inputs=16):
     """every branch-steering input vector, request and response, for every user flow of the configuration"""
     txs = []
@@ -219,7 +239,7 @@ def standard_txs(cfg, max_inputs=16):
         for bits in ins:
             pair = None
             for d in ("req", "res"):
-                t = tx(cfg, d, bits, url=fl["url"], flow=fl["name"])
+                t = tx(cfg, d, bits, url=url_for(fl), flow=fl["name"])
                 pair = pair or t["id"]
                 t["pair"] = pair
                 txs.append(t)
@@ -294,7 +314,8 @@ def build_trace(cases, events):
             if e["ev"] != "exec":
                 continue
             t = txs[e["tx"]]
-            lines.append({"ev": "exec", "id": c["id"] + "/" + e["tx"], "flow": t.get("flow", "A"), "dir": t["dir"], "seq": e["seq"],
+            lines.append({"ev": "exec", "id": c["id"] + "/" + e["tx"], "flow": t.get("flow", "A"),
+                          "flows": selected_flows(c["cfg"], t.get("url", ""), t.get("flow", "A")), "dir": t["dir"], "seq": e["seq"],
                           "sysreq": reqorder.get(t.get("pair"), []) if t["dir"] == "res" else [],
                           "outcome": e["outcome"], "steps": e["steps"] if e["steps"] >= 0 else 10 ** 6})
             refs.append((c, t, e))
@@ -410,7 +431,7 @@ def random_config(rng, big):
     two = rng.random() < 0.25
     flows = [random_flow(rng, "A", TXURL, keys, big, other=("B" if two else None))]
     if two:
-        flows.append(random_flow(rng, "B", HOST + "/y", ["u", "v"][: rng.choice([1, 2])], False,
+        flows.append(random_flow(rng, "B", rng.choice([HOST + "/y", HOST + "/y", HOST + "/*", TXURL]), ["u", "v", "w"][: rng.choice([1, 2, 3])], False,
                                  other=("A" if rng.random() < 0.1 else None)))
     quotas = []
     if rng.random() < 0.35:
@@ -497,6 +518,35 @@ def handcrafted():
                  [conn(F("L", "end"), P("r")), conn(P("r"), F("L", "start"))] if d == "req" else [conn(S("start"), P("r")), conn(P("r"), S("end"))],
                  [conn(F("L", "end"), P("r")), conn(P("r"), F("L", "start"))] if d == "res" else [conn(S("start"), P("r")), conn(P("r"), S("end"))],
                  url=HOST + "/z"), lib], "quotas": []}
+    # several user flows selected for one transaction: the flow of the host and the flow of one endpoint (or two flows of
+    # the same endpoint); none / the first / a later flow answers; response sides of the flows that did not answer
+    def gate(name, pre, url, resroot=True, chain=False):
+        g, gen, aft, tail = pre + "gate", pre + "gen", pre + "after", pre + "tail"
+        res = [conn(P(gen), P(aft)), conn(P(aft), S("end"))]
+        if chain:
+            res = [conn(P(gen), P(aft)), conn(P(aft), P(tail)), conn(P(tail), S("end"))]
+        if resroot:
+            res = [conn(S("start"), P(tail)), conn(P(tail), S("end"))] + [c for c in res if not (chain and c["f"]["n"] == tail)]
+        return flow(name, [(g, "Cond"), (gen, "Gen"), (aft, "Plain"), (tail, "Plain")],
+                    [conn(S("start"), P(g)), conn(P(g, "hit"), P(gen)), conn(P(g, "miss"), S("end"))], res, url=url)
+    out["multi-host-and-endpoint"] = {"flows": [gate("E", "e", TXURL), gate("H", "h", HOST + "/*")], "quotas": []}
+    out["multi-same-endpoint"] = {"flows": [gate("E", "e", TXURL), gate("H", "h", TXURL)], "quotas": []}
+    out["multi-rootless-response"] = {"flows": [gate("E", "e", TXURL, resroot=False), gate("H", "h", HOST + "/*", chain=True)], "quotas": []}
+    out["multi-three-flows-quotas"] = {"flows": [gate("E", "e", TXURL, chain=True), gate("H", "h", HOST + "/*"), gate("K", "k", TXURL, resroot=False)],
+                                       "quotas": [{"id": "qw", "kind": "conc", "url": HOST + "/*"}, {"id": "qx", "kind": "conc", "url": TXURL}]}
+    # nested references: A continues behind B, B hands over to C before / after declaring its own way to the stream end
+    cfl = flow("C", [("e", "Plain")], [conn(S("start"), P("e")), conn(P("e"), S("end"))], [conn(S("start"), P("e")), conn(P("e"), S("end"))], url=HOST + "/z")
+    for nm, bconns in (("handover-first", [conn(P("b", "miss"), F("C", "start")), conn(S("start"), P("b")), conn(P("b", "hit"), P("d")), conn(P("d"), S("end"))]),
+                       ("handover-between", [conn(P("b", "hit"), P("d")), conn(P("b", "miss"), F("C", "start")), conn(S("start"), P("b")), conn(P("d"), S("end"))]),
+                       ("behind-third", [conn(F("C", "end"), P("b")), conn(P("b", "hit"), P("d")), conn(P("b", "miss"), S("end")), conn(P("d"), S("end"))])):
+        for d in ("req", "res"):
+            triv_a = [conn(S("start"), P("a")), conn(P("a"), S("end"))]
+            triv_b = [conn(S("start"), P("d")), conn(P("d"), S("end"))]
+            for side, aconns in (("behind", [conn(F("B", "end"), P("a")), conn(P("a"), S("end"))]), ("into", [conn(S("start"), P("a")), conn(P("a"), F("B", "start"))])):
+                out["nested-%s-%s-%s" % (nm, side, d)] = {"flows": [
+                    flow("A", [("a", "Plain")], aconns if d == "req" else triv_a, aconns if d == "res" else triv_a),
+                    flow("B", [("b", "Cond"), ("d", "Plain")], bconns if d == "req" else triv_b, bconns if d == "res" else triv_b, url=HOST + "/y"),
+                    cfl], "quotas": []}
     out["self-reference"] = {"flows": [flow("A", [("p", "Plain")], [conn(S("start"), P("p")), conn(P("p"), F("A", "start"))],
         [conn(S("start"), S("end"))])], "quotas": []}
     return out
@@ -599,6 +649,56 @@ def criteria_cases(rng, thorough):
                     c["nomodel"] = True
                     cases.append(c)
                     n += 1
+    return cases
+
+
+def mutating_cases(rng, thorough):
+    """C05, 'all traffic' where headers are parsed: malformed header blocks (as HAProxy would hand them to readRequestArgs /
+    readResponseArgs -> utils.ParseHeaders) and odd bodies through flows whose processors REWRITE the transaction
+    (DataSanitation: body + content-length, TransformAPICall: headers / request object) and the fold of the resulting
+    actions into the SPOE reply.  nomodel: only 'returns without panic within the bound' is claimed."""
+    def fl(req, res=None):
+        procs = [("c", "Cond"), ("d", "Plain"), ("t", "Plain"), ("t2", "Plain"), ("m", "Plain"), ("g", "Gen")]
+        f = flow("A", procs, req, res or [conn(S("start"), P("t2")), conn(P("t2"), S("end"))])
+        for p in f["procs"]:
+            p["impl"] = {"d": "sanitize", "t": "transform", "t2": "transform", "m": "metrics"}.get(p["key"], "")
+            if not p["impl"]:
+                del p["impl"]
+        return f
+    shapes = {
+        "sanitize": fl([conn(S("start"), P("d")), conn(P("d"), S("end"))]),
+        "transform": fl([conn(S("start"), P("t")), conn(P("t"), S("end"))]),
+        "sanitize-transform": fl([conn(S("start"), P("d")), conn(P("d"), P("t")), conn(P("t"), P("m")), conn(P("m"), S("end"))]),
+        "branch": fl([conn(S("start"), P("c")), conn(P("c", "hit"), P("d")), conn(P("c", "miss"), P("t")), conn(P("d"), S("end")), conn(P("t"), S("end"))]),
+        "transform-then-answer": fl([conn(S("start"), P("t")), conn(P("t"), P("d")), conn(P("d"), P("g"))],
+                                    [conn(S("start"), P("m")), conn(P("m"), S("end")), conn(P("g"), P("t2")), conn(P("t2"), P("m"))]),
+    }
+    blocks = [b"no-colon-line", b" leading: space", b"bad name: v", b"x-a: 1\r\nno-colon", b"", b":", b": novalue", b"\x00\x01: x",
+              b"x-a: 1\r\n x-cont: folded", b"content-type: application/json\r\nx-c: 1", b"content-length: 3\r\ncontent-type: text/plain",
+              b"x-c: 1\r\n\r\nafter-blank: 1", b"x-c:1\nx-d:2", b"X-C: 1\r\nx-c: 0", b"content-encoding: gzip\r\nbroken"]
+    bodies = [b'{"email":"john.doe@example.com","n":1}', b"contact john.doe@example.com or +1 555-123-4567, card 4111 1111 1111 1111", b"",
+              b"\xff\xfe\x00", b'{"a":', b"[" * 200, b"a@b.co " * 300]
+    quotas = [[], [{"id": "qw", "kind": "conc", "url": HOST + "/*"}]]
+    cases = []
+    for name, f in sorted(shapes.items()):
+        for qi, q in enumerate(quotas):
+            cfg = {"flows": [json.loads(json.dumps(f))], "quotas": q}
+            txs = []
+            for blk in blocks:
+                for body in (bodies if thorough else rng.sample(bodies, 3)):
+                    for d in ("req", "res"):
+                        _txn[0] += 1
+                        t = {"id": "h%d" % _txn[0], "dir": d, "method": rng.choice(["GET", "POST"]), "url": TXURL, "headers": {}, "flow": "A",
+                             "bits": {}, "kind": "malformed", "headers_raw_b64": b64(blk) if blk else "", "body_b64": b64(body),
+                             "full": rng.random() < 0.6}
+                        if not blk:
+                            del t["headers_raw_b64"]
+                        if d == "res":
+                            t["status"] = 200
+                        txs.append(t)
+            c = make_case("mut-%s-q%d" % (name, qi), cfg, standard_txs(cfg) + txs)
+            c["nomodel"] = True
+            cases.append(c)
     return cases
 
 
@@ -892,7 +992,7 @@ def run_property(ctx, prop):
             if c["cfg"].get("quotas") and (c["id"].startswith("h") or T):
                 c["txs"] = c["txs"] + odd_url_txs()
         rcases += quota_cases(ctx.rng) + flow_file_cases(ctx.rng) + yaml_mutants(ctx.rng, 400 if not T else 4000)
-        rcases += criteria_cases(ctx.rng, T)
+        rcases += criteria_cases(ctx.rng, T) + mutating_cases(ctx.rng, T)
     lines2, refs2, bad2 = exercise(ctx, prop, binary, rcases, "rand", reported)
     account(lines2, refs2, bad2)
     k = next((i for i, l in enumerate(lines2) if l["ev"] == "exec" and any(s.get("sid") for s in l["seq"]) and l["dir"] == "req"), None)
